@@ -53,6 +53,15 @@ func (c *Conn) ResetSession(ctx context.Context) error {
 	return conn.ResetSession(ctx)
 }
 
+// CheckNamedValue lets the target connection decide which argument types it accepts, as database/sql
+// does for the unwrapped driver (e.g. uint64 values above the int64 range with the MySQL driver)
+func (c *Conn) CheckNamedValue(nv *driver.NamedValue) error {
+	if checker, ok := c.targetConn.(driver.NamedValueChecker); ok {
+		return checker.CheckNamedValue(nv)
+	}
+	return driver.ErrSkip
+}
+
 // Prepare returns a prepared statement, bound to this connection.
 func (c *Conn) Prepare(query string) (driver.Stmt, error) {
 	s, err := c.targetConn.Prepare(query)
